@@ -51,6 +51,8 @@ type nameState struct {
 	early     int    // early reference meta id seen during this creation (0 none)
 	earlyRuns int
 	published int
+	// hasFactory: an early-reference factory was registered during the current creation
+	hasFactory bool
 }
 
 type protoStats struct {
@@ -73,8 +75,17 @@ func checkProtocol(ev []mon.TraceEv) (violations []string, st protoStats) {
 			violations = append(violations, fmt.Sprintf("event %d (%s %s %s): ", e.Seq, e.Phase, e.Op, e.Name)+fmt.Sprintf(format, a...))
 		}
 	}
+	allowOf := map[int]bool{} // call id -> allowEarlyReference of the lookup (recorded on the call event)
+	for _, e := range ev {
+		if e.Op == "get" && e.Phase == "call" {
+			allowOf[e.Call] = e.Allow
+		}
+	}
 	for _, e := range ev {
 		s := get(e.Name)
+		if e.Op == "get" && e.Phase == "ret" {
+			e.Allow = allowOf[e.Call]
+		}
 		switch e.Op {
 		case "create-fn":
 			if e.Phase == "call" {
@@ -88,7 +99,7 @@ func checkProtocol(ev []mon.TraceEv) (violations []string, st protoStats) {
 				if s.depth > 0 {
 					bad(e, "a second, nested creation of a name that is already being created (its early reference was not available to the lookup)")
 				}
-				s.state, s.early, s.earlyRuns = "creating", 0, 0
+				s.state, s.early, s.earlyRuns, s.hasFactory = "creating", 0, 0, false
 				s.depth++
 				st.creations++
 			} else {
@@ -141,6 +152,10 @@ func checkProtocol(ev []mon.TraceEv) (violations []string, st protoStats) {
 				} else if s.early != 0 {
 					// an early reference was already handed out: every later lookup during this creation must observe it
 					bad(e, "lookup (allowEarlyReference=%v) returned nothing although early reference m%d was already handed out during this creation", e.Allow, s.early)
+				} else if s.hasFactory && e.Allow && s.depth > 0 {
+					// a factory is registered (it may have failed before - then it is simply asked again): a lookup
+					// that allows early references ends with a reference or with the factory's error
+					bad(e, "lookup with allowEarlyReference returned neither a reference nor an error although an early-reference factory was registered for this creation")
 				}
 			case "failed":
 				st.failureThenLookup++
@@ -158,6 +173,10 @@ func checkProtocol(ev []mon.TraceEv) (violations []string, st protoStats) {
 			}
 			if e.Bool && (s.state == "published" || s.state == "failed" || s.state == "") && s.depth == 0 {
 				bad(e, "name is reported as in creation although its state is %q", s.state)
+			}
+		case "addfactory":
+			if e.Phase == "ret" && s.state == "creating" && s.depth > 0 {
+				s.hasFactory = true
 			}
 		case "add":
 			if e.Phase == "ret" {
@@ -233,11 +252,16 @@ func (d *driver) create(name string) (*component_definition.Meta, error) {
 		early := meta
 		if d.rng.Intn(4) > 0 {
 			failEarly := d.rng.Intn(8) == 0
+			failOnce := d.rng.Intn(6) == 0 // a transient fault: the first request fails, the factory is asked again later
 			wrapEarly := d.rng.Intn(5) == 0
-			d.log("addfactory(%s fail=%v wrap=%v)", name, failEarly, wrapEarly)
+			d.log("addfactory(%s fail=%v failOnce=%v wrap=%v)", name, failEarly, failOnce, wrapEarly)
 			d.reg.AddSingletonFactory(name, container.FuncSingletonFactory(func() (*component_definition.Meta, error) {
 				if failEarly {
 					return nil, errors.New("early factory failed")
+				}
+				if failOnce {
+					failOnce = false
+					return nil, errors.New("early factory failed (transient)")
 				}
 				if wrapEarly {
 					early = d.metaFor(name)
@@ -281,8 +305,14 @@ func (d *driver) create(name string) (*component_definition.Meta, error) {
 			d.log("fail(%s)", name)
 			return nil, errors.New("creation failed: " + name)
 		}
-		// like the real factory: when an early reference was handed out, publish that one
+		// like the real factory: when an early reference was handed out, publish that one - unless
+		// initialization wrapped the component and nobody depends on the early reference (the real factory
+		// then publishes the wrapper): every later lookup must see what was published
 		if e, _ := d.reg.GetSingleton(name, false); e != nil {
+			if d.rng.Intn(5) == 0 {
+				d.log("publish-wrapper(%s)", name)
+				return d.metaFor(name), nil
+			}
 			return e, nil
 		}
 		return meta, nil
